@@ -1,6 +1,7 @@
 """C11 — The syntax tree is lossless and every reported span is exact (four provenance clauses)."""
 import re
-from facts import hir_walk, callee_def, callee_of, variant_of, FnCtx
+import json
+from facts import hir_walk, callee_def, callee_of, callee_id, variant_of, FnCtx
 import pathrules as P
 import mirflow as MF
 
@@ -152,6 +153,7 @@ def loader_text(c, facts, R):
         if not fn.mir or not (is_fs or is_ws):
             continue
         m += 1
+        fn = facts.normalised(fn)        # a new private helper (`with_path(loc, fs::read_to_string)`) is looked through
         idx = MF.defs_index(fn)
         sl = MF.slice_back(fn, 0, idx)
         names = {P.strip(x).split('::')[-1] for x, _, _ in sl['calls']}
@@ -310,6 +312,35 @@ def r3_hull(c, facts):
         fn = c.anchor(R, q)
         # the descent may sit in a closure (`leaf().or_else(|| self.children().find_map(..))`)
         fam = [fn] + facts.closures_of(fn)
+        # ... or in a helper shared by start() and end() and told the side by an enum constant
+        # (`self.edge_token(Edge::First)` with `(_, Edge::First) => self.children().find_map(|c| c.edge_token(edge))`)
+        sided = None
+        for e, anc in hir_walk(fn.hir['body']) if fn.hir else []:
+            if e['k'] not in ('call', 'mcall'):
+                continue
+            h = facts.fns.get(callee_id(e))
+            consts = [a['p']['def'] for a in e.get('args', []) if a['k'] == 'path' and a['p'].get('res') == 'def' and 'Ctor' in str(a['p'].get('dk'))]
+            if h is None or not h.hir or h.id == fn.id or h.d.get('vis') == 'Public' or len(consts) != 1:
+                continue
+            for m, _ in hir_walk(h.hir['body']):
+                if m['k'] != 'match':
+                    continue
+                for arm in m['arms']:
+                    if consts[0] not in json.dumps(arm['pat']):
+                        continue
+                    names = {x['name'] for x, _ in hir_walk(arm['body']) if x['k'] == 'mcall'}
+                    rec_h = any(callee_id(x) == h.id for x, _ in hir_walk(arm['body']) if x['k'] in ('call', 'mcall'))
+                    sided = (want.split('::')[-1] in names and other.split('::')[-1] not in names, rec_h, h.qname, consts[0])
+        if sided is not None:
+            if sided[0]:
+                c.ok(R, {q.split('::')[-1]: 'descends through %s (arm %s of %s)' % (want.split('::')[-1], sided[3], sided[2])})
+            else:
+                c.bad(R, '%s:direction' % q.split('::')[-1], '%s no longer descends through %s' % (q, want))
+            if sided[1]:
+                c.ok(R, {q.split('::')[-1]: 'recurses into the child found'})
+            else:
+                c.bad(R, '%s:no-recursion' % q.split('::')[-1], '%s no longer recurses into children' % q)
+            continue
         if any(P.call_blocks(f2, want) for f2 in fam) and not any(P.call_blocks(f2, other) for f2 in fam):
             c.ok(R, {q.split('::')[-1]: 'descends through ' + want.split('::')[-1]})
         else:
